@@ -93,3 +93,20 @@ Lemma ex_current_plan :
   plan_segments false ex_cfg 0 ex_inputs = [[0%nat; 1%nat]] /\
   Sorted (fun a b => cmpL ex_cfg a b <= 0) (map (@key keyL) (plan_rows false ex_cfg 0 64 false ex_inputs)).
 Proof. repeat split; try (vm_compute; reflexivity). apply sortedb_Sorted. vm_compute. reflexivity. Qed.
+
+(** tagging sorted keys gives sorted, well-tagged rows *)
+Lemma tag_from_forall cfg k i j s l :
+  Forall (fun b => cmpL cfg k b <= 0) l -> Forall (rle keyL (cmpL cfg) (mkRow k i j)) (tag_from i s l).
+Proof. intros H. revert s. induction H; intros s; cbn; constructor; auto. Qed.
+
+Lemma keys_sorted_sorted cfg i s l :
+  Sorted (fun a b => cmpL cfg a b <= 0) l -> sorted keyL (cmpL cfg) (tag_from i s l).
+Proof.
+  intros H. apply Sorted_StronglySorted in H.
+  2:{ intros a b d. apply cmpL_trans. }
+  revert s. induction H as [|k l Hs IH Hf]; intros s; cbn; [constructor|].
+  constructor; [apply IH|]. now apply tag_from_forall.
+Qed.
+
+Lemma tag_from_input {A} i s (l : list A) r : In r (tag_from i s l) -> input r = i.
+Proof. revert s; induction l; cbn; intros s H; [contradiction|]. destruct H as [<-|H]; eauto. Qed.
